@@ -491,12 +491,16 @@ def _shard_main(fn, items, idx, q, init):
         out = []
         for it in items:
             try:
-                out.append(fn(it))
+                res = fn(it)
+                if isinstance(res, list):
+                    out.extend(res)
+                else:
+                    out.append(res)
             except HarnessError as e:
                 out.append({"harness_error": str(e)})
             except Exception:
                 out.append({"harness_error": traceback.format_exc()})
-            if len(out) >= 256:
+            if len(out) >= 2048:
                 q.put(("part", idx, out))
                 out = []
         q.put(("part", idx, out))
@@ -520,7 +524,11 @@ def run_sharded(fn, items, nproc=None, init=None, deadline=None):
             init(0)
         res = []
         for it in items:
-            res.append(fn(it))
+            r = fn(it)
+            if isinstance(r, list):
+                res.extend(r)
+            else:
+                res.append(r)
         stop_workers()
         return res
     ctx = multiprocessing.get_context("fork")
